@@ -194,8 +194,10 @@ impl Selector {
                     /* The selector matches if idx == a*n + b, where
                      * n >= 0
                      */
-                    let idx_offset = idx - b;
-                    if *a == 0 {
+                    // (in i64, as a and b can be anywhere in the i32 range)
+                    let (a, b) = (*a as i64, *b as i64);
+                    let idx_offset = idx as i64 - b;
+                    if a == 0 {
                         return idx_offset == 0 && Self::do_matches(&comps[1..], node);
                     }
                     if (idx_offset % a) != 0 {
